@@ -3,6 +3,7 @@ package engines
 import (
 	"bytes"
 	"encoding/binary"
+	"math"
 	"errors"
 	"fmt"
 	"io"
@@ -211,7 +212,7 @@ var errInjected = errors.New("injected read error")
 // plus malformed ones.
 var c18LengthPatterns = func() [][]byte {
 	var out [][]byte
-	for _, v := range []int64{1 << 16, 1 << 20, 1 << 24, 1 << 26, 1 << 31, 1 << 40, 1<<62 + 5, -7} {
+	for _, v := range []int64{1 << 16, 1 << 20, 1 << 24, 1 << 26, 1 << 31, 1 << 40, 1<<62 + 5, -7, math.MaxInt64, math.MaxInt64 - 1, math.MaxInt64 - 9, math.MinInt64} {
 		b := make([]byte, 1+binary.MaxVarintLen64)
 		n := binary.PutVarint(b[1:], v)
 		b[0] = byte(n)
@@ -526,7 +527,7 @@ func init() {
 		ID:    "C18",
 		Level: "fault_enumeration",
 		Rule: "programs = fixed corpus + tape-generated scripts; per program the valid encodings are: v2 bytecode, the v2 payload under a v1 header, a down-converted v1 program, " +
-			"the constants array, the main function and a gob/SyncMap object array. Enumeration runs apply EVERY truncation, EVERY offset × {^b, b+1, 0x00, 0xFF, one random bit} and EVERY byte that looks like a sized-type tag × 12 extreme length fields to each encoding and feed it to every applicable target " +
+			"the constants array, the main function and a gob/SyncMap object array. Enumeration runs apply EVERY truncation, EVERY offset × {^b, b+1, 0x00, 0xFF, one random bit} and EVERY byte that looks like a sized-type tag × 16 extreme length fields to each encoding and feed it to every applicable target " +
 			"(DecodeBytecodeFrom, Bytecode.UnmarshalBinary, DecodeObject); sampled runs apply double corruption, lost sector, misdirected write, garbage tail, truncation+corruption, 0xFF runs, lost and duplicated regions, extreme varint encodings, tag swaps, short reads and reader errors. " +
 			"evaluations = decode calls on faulted inputs; a run is non-trivial when it executed its whole fault list; distinct = distinct (program, batch) pairs.",
 		Assumptions: []string{
